@@ -40,11 +40,11 @@ class Unsupported(Exception):
     pass
 
 
-BYTES_VARS = {"recvd", "nxt", "delimiter", "chunks", "last", "val", "sbuf0", "rbuf", "data"}
+BYTES_VARS = {"recvd", "nxt", "delimiter", "chunks", "last", "val", "sbuf0", "rbuf", "data", "ret"}
 INT_VARS = {"offset", "rbuf_offset", "find_offset_start", "maxsize", "len_delimiter", "total_bytes", "size",
             "extra_bytes", "sent", "total_sent"}
 BOOL_VARS = {"with_delimiter", "timeout"}
-SKIP_ASSIGN = {"args", "msg"}
+SKIP_ASSIGN = {"args", "msg", "size_read"}
 RAISES = {"MessageTooLong": "MessageTooLong", "ConnectionClosed": "ConnectionClosed"}
 
 
@@ -127,6 +127,9 @@ class E:
         if isinstance(n, ast.UnaryOp) and isinstance(n.op, ast.USub):
             return ("(- %s)" % self.int(n.operand), "int")
         if isinstance(n, ast.BinOp) and isinstance(n.op, (ast.Add, ast.Sub)):
+            lt, lk = self.expr(n.left)
+            if lk == "bytes" and isinstance(n.op, ast.Add):
+                return ("(%s ++ %s)" % (lt, self.bytes(n.right)), "bytes")
             return ("(%s %s %s)" % (self.int(n.left), "+" if isinstance(n.op, ast.Add) else "-", self.int(n.right)), "int")
         if isinstance(n, ast.Call):
             f = n.func
@@ -173,7 +176,21 @@ class E:
         raise Unsupported("test %s" % dump(n))
 
 
-DEADLINE_INNER = None
+# statements that only resolve defaulted arguments (the generated functions take the resolved values) or reject
+# flags != 0 (outside the model: flags = 0)
+PREAMBLE = {
+    "If(test=Compare(left=Name(id='timeout', ctx=Load()), ops=[Is()], comparators=[Name(id='_UNSET', ctx=Load())]), "
+    "body=[Assign(targets=[Name(id='timeout', ctx=Store())], value=Attribute(value=Name(id='self', ctx=Load()), "
+    "attr='timeout', ctx=Load()))], orelse=[])",
+    "If(test=Compare(left=Name(id='maxsize', ctx=Load()), ops=[Is()], comparators=[Name(id='_UNSET', ctx=Load())]), "
+    "body=[Assign(targets=[Name(id='maxsize', ctx=Store())], value=Attribute(value=Name(id='self', ctx=Load()), "
+    "attr='maxsize', ctx=Load()))], orelse=[])",
+    "If(test=Compare(left=Name(id='maxsize', ctx=Load()), ops=[Is()], comparators=[Constant(value=None)]), "
+    "body=[Assign(targets=[Name(id='maxsize', ctx=Store())], value=Name(id='_RECV_LARGE_MAXSIZE', ctx=Load()))], orelse=[])",
+    "If(test=Name(id='flags', ctx=Load()), body=[Raise(exc=Call(func=Name(id='ValueError', ctx=Load()), "
+    "args=[BinOp(left=Constant(value='non-zero flags not supported: %r'), op=Mod(), right=Name(id='flags', ctx=Load()))], "
+    "keywords=[]))], orelse=[])",
+}
 
 
 def is_deadline_block(s):
@@ -242,6 +259,13 @@ class Body(E):
             for n in self.live_break:
                 self.use(n)
             return pad + "IBreak %s" % self.state(self.live_break)
+        if isinstance(s, ast.Return) and s.value is not None and self.live_break == ["<return>"]:
+            # return e: the value and the receive buffer as it then is
+            v = self.bytes(s.value)
+            self.use("rbuf")
+            return pad + "IBreak (%s, rbuf)" % v
+        if dump(s) in PREAMBLE:
+            return self.stmts(rest, ind, bound)
         if isinstance(s, ast.Raise):
             if self.live_raise is None:
                 raise Unsupported("raise in a part that must not raise")
@@ -345,7 +369,7 @@ def find_while(fn):
     return found[0]
 
 
-ORDER = ["delimiter", "size", "maxsize", "len_delimiter", "with_delimiter", "timeout", "recvd", "chunks", "sbuf0",
+ORDER = ["delimiter", "size", "maxsize", "len_delimiter", "with_delimiter", "timeout", "rbuf", "data", "recvd", "chunks", "sbuf0",
          "find_offset_start", "offset", "rbuf_offset", "total_bytes", "total_sent", "nxt", "sent", "late"]
 TYPES = {"bytes": "bytes", "int": "Z", "bool": "bool"}
 
@@ -424,6 +448,91 @@ def after_try(fn, trail, n):
     return ss[i + 1:i + 1 + n]
 
 
+def with_body(fn):
+    """The statements of the method's single `with self._recv_lock:` block followed by the statements after it."""
+    body = [x for x in fn.body if not (isinstance(x, ast.Expr) and isinstance(x.value, ast.Constant))]
+    if not (len(body) in (1, 2) and isinstance(body[0], ast.With)):
+        raise Unsupported("%s: expected `with self._recv_lock:` [+ return]" % fn.name)
+    return body[0].body + body[1:]
+
+
+def gen_recv(tree):
+    """recv: before / after the single sock.recv (wrapped in try/except socket.timeout: raise Timeout)."""
+    fn = get_method(tree, "BufferedSocket", "recv")
+    ss = with_body(fn)
+    idx = [i for i, x in enumerate(ss) if isinstance(x, ast.Try)]
+    if len(idx) != 1:
+        raise Unsupported("recv: expected one try statement")
+    t = ss[idx[0]]
+    want_handler = ("[ExceptHandler(type=Attribute(value=Name(id='socket', ctx=Load()), attr='timeout', ctx=Load()), "
+                    "body=[Raise(exc=Call(func=Name(id='Timeout', ctx=Load()), args=[Name(id='timeout', ctx=Load())], keywords=[]))])]")
+    if not (len(t.body) == 1 and effect_of(t.body[0], "recv") == "data" and dump(t.handlers) == want_handler
+            and not t.orelse and not t.finalbody):
+        raise Unsupported("recv: try statement %s" % dump(t))
+    E.alias = None
+    b = Body(["rbuf"], "recv", ["<return>"], None)
+    pre = b.stmts(ss[:idx[0]] + [t.body[0]], 1)
+    b2 = Body(["rbuf"], "recv", ["<return>"], None)
+    b2.mode = "post"
+    post = b2.stmts(ss[idx[0] + 1:], 1)
+    if "ICont" in post or "IFallsThrough" in pre:
+        raise Unsupported("recv: a path does not end in return")
+    return (definition("src_recv_pre", b, pre, "iter (bytes * bytes) bytes unit") + "\n"
+            + definition("src_recv_post", b2, post, "iter (bytes * bytes) bytes unit"))
+
+
+def is_recv_size_call(v, args_dump):
+    return (isinstance(v, ast.Call) and isinstance(v.func, ast.Attribute) and v.func.attr == "recv_size"
+            and isinstance(v.func.value, ast.Name) and v.func.value.id == "self" and dump(v.args) + dump(v.keywords) == args_dump)
+
+
+def gen_peek(tree):
+    fn = get_method(tree, "BufferedSocket", "peek")
+    ss = with_body(fn)
+    idx = [i for i, x in enumerate(ss) if isinstance(x, ast.Assign) and isinstance(x.value, ast.Call)]
+    if not (len(idx) == 1 and dump(ss[idx[0]].targets) == "[Name(id='data', ctx=Store())]" and is_recv_size_call(
+            ss[idx[0]].value, "[Name(id='size', ctx=Load())][keyword(arg='timeout', value=Name(id='timeout', ctx=Load()))]")):
+        raise Unsupported("peek: expected data = self.recv_size(size, timeout=timeout)")
+    E.alias = None
+    b = Body(["rbuf"], "recv", ["<return>"], None)
+    pre = b.stmts(ss[:idx[0]], 1).replace("IFallsThrough", "IEffect rbuf")
+    b.use("rbuf")
+    b2 = Body(["rbuf"], "recv", ["<return>"], None)
+    b2.mode = "post"
+    post = b2.stmts(ss[idx[0] + 1:], 1)
+    if "ICont" in post:
+        raise Unsupported("peek: a path does not end in return")
+    return (definition("src_peek_pre", b, pre, "iter (bytes * bytes) bytes unit") + "\n"
+            + definition("src_peek_post", b2, post, "iter (bytes * bytes) bytes unit"))
+
+
+def gen_recv_close(tree):
+    fn = get_method(tree, "BufferedSocket", "recv_close")
+    ss = [x for x in with_body(fn) if dump(x) not in PREAMBLE]
+    if not (len(ss) == 2 and isinstance(ss[0], ast.Try) and dump(ss[1]) == "Return(value=Name(id='ret', ctx=Load()))"):
+        raise Unsupported("recv_close: expected try + return ret")
+    t = ss[0]
+    if not (len(t.body) == 1 and isinstance(t.body[0], ast.Assign) and dump(t.body[0].targets) == "[Name(id='recvd', ctx=Store())]"
+            and isinstance(t.body[0].value, ast.Call) and len(t.body[0].value.args) == 2
+            and is_recv_size_call(t.body[0].value, dump(t.body[0].value.args) + "[]")
+            and dump(t.body[0].value.args[1]) == "Name(id='timeout', ctx=Load())"
+            and len(t.handlers) == 1 and dump(t.handlers[0].type) == "Name(id='ConnectionClosed', ctx=Load())" and not t.finalbody):
+        raise Unsupported("recv_close: try statement %s" % dump(t))
+    E.alias = None
+    e = Body([], "recv")
+    size_arg = e.int(t.body[0].value.args[0])
+    out = "Definition src_rc_size %s : Z := %s.\n\n" % (params_used(e.free), size_arg)
+    b = Body(["rbuf"], "recv", ["<return>"], None)
+    closed = b.stmts(t.handlers[0].body + [ss[1]], 1)
+    out += definition("src_rc_closed", b, closed, "iter (bytes * bytes) bytes unit") + "\n"
+    b2 = Body(["rbuf"], "recv", ["<return>"], "rbuf")
+    toolong = b2.stmts(t.orelse, 1)
+    if "IRaise MessageTooLong rbuf" not in toolong or "ICont" in toolong or "IFallsThrough" in toolong:
+        raise Unsupported("recv_close: else clause")
+    out += definition("src_rc_toolong", b2, toolong, "iter (bytes * bytes) bytes bytes")
+    return out
+
+
 def translate(repo):
     path = os.path.join(repo, "boltons", "socketutils.py")
     tree = ast.parse(open(path).read())
@@ -490,6 +599,9 @@ def translate(repo):
     b = Body(["sbuf0", "total_sent"], "send", None, "sbuf0")
     b.mode = "post"
     out.append(definition("src_send_post", b, b.stmts(body[1:], 1), "iter unit (bytes * Z) bytes"))
+    out.append(gen_recv(tree))
+    out.append(gen_peek(tree))
+    out.append(gen_recv_close(tree))
     return "\n".join(out)
 
 
